@@ -421,11 +421,19 @@ class ChainWorld(World):
             kw['storage'] = MemoryKeyStorage()
         elif op.get('storage') == 'empty':
             kw['storage'] = EmptyKeyStorage()
+        buf = None
+        if op.get('anchor_buffer'):
+            # the anchor is read into a buffer that the caller re-uses for something else afterwards
+            buf = bytearray(anchor)
+            anchor = buf if op['anchor_buffer'] == 'bytearray' else memoryview(buf)
         try:
             if op.get('bare'):
                 v = CascadeChecker(self.app, anchor, **kw)
             else:
                 v = lvs_validator(self.checker, self.app, anchor, **kw)
+            if buf is not None:
+                other = self.pki.certs[self.label_name('root2' if anchor_label == 'root' else 'root')]
+                buf[:] = (other + bytes(len(buf)))[:len(buf)]
             self.instances[op['iid']] = (v, op)
             self.log('instance', iid=op['iid'], ok=True, anchor=anchor_label, bare=bool(op.get('bare')))
         except ValueError as e:
@@ -745,6 +753,8 @@ def generate(rng, seed, tier='quick'):
             op['anchor'] = 'root2'
         if rng.random() < 0.15:
             op['storage'] = rng.choice(['own', 'empty'])
+        if rng.random() < 0.12 and y >= 0.14:
+            op['anchor_buffer'] = rng.choice(['bytearray', 'memoryview'])
         if rng.random() < 0.06:
             op['bare'] = True
         ops.append(op)
